@@ -329,6 +329,20 @@ func main() {
 		}
 	}
 
+	// bounded stand-ins of this property (labelled bounded, not counted as proof)
+	bounded := runBounded(*prop, *tier, *repo, *verifDir, replayDir)
+	for _, b := range bounded {
+		if b.Disagreements != 0 {
+			os.MkdirAll(replayDir, 0o755)
+			file := filepath.Join(replayDir, "bounded_"+b.Name+".json")
+			bb, _ := json.MarshalIndent(map[string]any{"property": *prop, "class": "bounded", "obligation": "bounded:" + b.Name, "failing_input": b.First, "result": b}, "", " ")
+			os.WriteFile(file, bb, 0o644)
+			violations++
+			fmt.Printf("VIOLATION property=%s replay=%s obligation=bounded:%s input=%s\n", *prop, file, b.Name, strconv.Quote(b.First))
+		} else {
+			fmt.Printf("bounded stand-in %s: %d cases, 0 disagreements (%.1fs) [labelled bounded]\n", b.Name, b.Cases, b.Seconds)
+		}
+	}
 	if nObl == 0 && violations == 0 {
 		emit(Failure{Obligation: "tool:no-obligations", Class: "tool", Clause: "no obligation was generated for this property (vacuous check)", Status: "tool-error", Property: *prop, ToolError: true})
 	}
@@ -351,6 +365,7 @@ func main() {
 		"failed":                   failedNames,
 		"timeout_per_solver_s":     timeoutS,
 		"contract_lines":           ld.ct.AllLines,
+		"bounded_standins":         bounded,
 	}
 	if *verbose {
 		for _, o := range sel {
